@@ -234,3 +234,26 @@ Theorem C12_pg_execute_roundtrip : forall (data : bytes) portal n, new_execute_p
   ~ In x00 portal /\ n < 4294967296 /\ exists rest : bytes, data = portal ++ [x00] ++ be_enc 4 n ++ rest.
 Proof. exact pg_execute_roundtrip. Qed.
 Print Assumptions C12_pg_execute_roundtrip.
+
+(** Round s32 - a Parse message whose query is rewritten (ReplaceQuery, Parse branch): for EVERY accepted Parse
+    payload and EVERY new query without a 0 byte (shorter, equal or longer - no bound on either), the rewritten
+    message keeps its type, declares its actual length, consists of the old name, the new query with its terminator,
+    the old parameter count and the old parameter type OIDs, byte for byte, and NewParsePacket reads exactly
+    those fields back.  (The query must not contain a 0 byte: the protocol's strings are 0-terminated.) *)
+Theorem C12_pg_parse_replace_query_wf : forall (p : packet) (pp : parse) (q : bytes),
+  new_parse_packet (p_desc p) = Ok pp -> ~ In x00 q ->
+  exists p' : packet, replace_parse_query p q = Ok p' /\
+    p_type p' = p_type p /\
+    p_lenbuf p' = packet_length_buf (N.of_nat (length (p_desc p'))) /\
+    p_desc p' = pp_name pp ++ (q ++ [x00]) ++ pp_num pp ++ concat (pp_params pp) /\
+    new_parse_packet (p_desc p') = Ok (mk_parse (pp_name pp) (q ++ [x00]) (pp_num pp) (pp_params pp)).
+Proof. exact pg_parse_replace_query_wf. Qed.
+Print Assumptions C12_pg_parse_replace_query_wf.
+
+(** premises satisfiable: statement "s1", two parameter OIDs, a query that grows by 10 bytes *)
+Example C12_pg_parse_replace_query_wf_nonvacuous :
+  let p := mk_packet PG_PARSE_TYPE (hb 0x10000001b) (hb 0x173310053454c4543542024310000020000001700000011) in
+  exists pp, new_parse_packet (p_desc p) = Ok pp /\ pp_params pp <> [] /\
+    replace_parse_query p (hb 0x173656c656374202431202d2d206c6f6e676572)
+    = Ok (mk_packet PG_PARSE_TYPE (hb 0x100000025) (hb 0x173310073656c656374202431202d2d206c6f6e6765720000020000001700000011)).
+Proof. exact pg_parse_replace_query_wf_nonvacuous. Qed.
